@@ -191,5 +191,8 @@ func (dr *DirReader) Readdir(ctx context.Context, n int) (entries []DirectoryEnt
 		}
 		entries = append(entries, res.ent)
 	}
+	if n > 0 {
+		dr.current = up
+	}
 	return entries, nil
 }
